@@ -14,7 +14,7 @@ func init() {
 	register(&Property{
 		ID:          "C07",
 		Run:         runC07,
-		Explanation: "Decides the structural clauses of 'DLQ exactly once or stop': (R8 = C01.R8) the source ack of a nacked record is dominated by the DLQ write's success edge and covers exactly the stored prefix; (R2) the v1 DLQ handler latches itself broken whenever building or writing the DLQ record fails (the deferred latch reads the very variable those errors are assigned to) and serves acks/nacks only while running; (R3) status handlers of a message run inside the once-guard only; (R4) in both engines a nack the window refuses is returned as a fatal error when the DLQ is enabled (threshold>0), a v2 DLQ write failure is fatal, and the window is consulted under the DLQ mutex before any write; (R5) both DLQ record builders carry the original record, the nack error and the failing component; (R6) DLQ settings are range-checked before they are stored.",
+		Explanation: "Decides the structural clauses of 'DLQ exactly once or stop': (R8 = C01.R8) the source ack of a nacked record is dominated by the DLQ write's success edge and covers exactly the stored prefix; (R2) the v1 DLQ handler latches itself broken whenever building or writing the DLQ record fails (the deferred latch reads the very variable those errors are assigned to) and serves acks/nacks only while running; (R3) status handlers of a message run inside the once-guard only; (R4) in both engines a nack the window refuses is returned as a fatal error when the DLQ is enabled (threshold>0), a v2 DLQ write failure is fatal, and the window is consulted under the DLQ mutex before any write; (R5) both DLQ record builders carry the original record, the nack error and the failing component; (R6) DLQ settings are range-checked before they are stored. Rules added later (after independent seeded changes and defect hunts) are not all enumerated here: every armed rule is listed with its description, kind and instance count under coverage.rules.",
 		NotDecided:  []string{"the ring-buffer arithmetic of dlqWindow and v1/v2 decision parity over outcome sequences (run-time values)", "source order of DLQ writes beyond C04", "a nil nack reason supplied by in-process callers (the plugin boundary is covered by C09.R7)"},
 		Assumptions: []string{"sync.Once runs its function at most once"},
 	})
